@@ -108,6 +108,7 @@ fn world_spec(p: &Params) -> WorldSpec {
             curve: CurveSpec { zero: 40_000_000, hundred: 2_000_000_000, points: vec![], ins_fixed: 20_000, ins_ir: 100_000, prot_fixed: 20_000, prot_ir: 100_000, orig: 0 },
             oracle: oracle_spec(p, i),
             permissionless_bad_debt: i == B_LIAB && p.permless,
+            staked: None,
             ..BankSpec::default()
         })
         .collect();
@@ -202,6 +203,7 @@ fn bank_info(w: &World, key: Pubkey, mint_of: &BankInfo, oracle_key: Pubkey) -> 
     BankInfo {
         key,
         oracle_key,
+        oracle_extra: vec![],
         lv: bank_pda("liquidity_vault", &key),
         lv_auth: bank_pda("liquidity_vault_auth", &key),
         iv: bank_pda("insurance_vault", &key),
